@@ -4,7 +4,9 @@
 
    [monitor m c init sinit ops] (Model/HaSyncSpec.v) runs the Model of the HA sync message layer on
    the operation list [ops] — any interleaving of session adds/updates/deletes on the active,
-   broadcast-loop iterations, heartbeats, full syncs, stream attaches, deliveries and disconnects,
+   broadcast-loop iterations, heartbeats, full syncs, stream attaches, deliveries, disconnects, streams
+   the standby lost while their handler stays registered on the active (Drop) and the late exit of such
+   handlers (Reap),
    failed full syncs and restarts of the active, for any queue capacities [c]; a session is an id and
    a record with one value per field of ha.SessionState (generated list Model/HaSyncFields.v) — and
    feeds every (operation, observation) to the trace monitor the
@@ -154,7 +156,8 @@ Theorem C13_gap_loss_exactly_when : forall c s o,
 Proof. exact marker_1302_exact. Qed.
 Print Assumptions C13_gap_loss_exactly_when.
 
-Theorem C13_queues_bounded : forall c ops, bounded c (run c init ops).
+(* 1 <= c_ccap: the slot for the message in the stream handler's hands always exists *)
+Theorem C13_queues_bounded : forall c ops, 1 <= c_ccap c -> bounded c (run c init ops).
 Proof. exact queues_bounded. Qed.
 Print Assumptions C13_queues_bounded.
 
